@@ -1,2 +1,367 @@
-(* Proofs/DevInfo.v -- C12 (in progress) *)
+(* Proofs/DevInfo.v -- C12: session settings and identity survive every synchronisation path.
+
+   Part 1  round trips of the flat reader (packet body): every component codec and the six
+           message kinds.  The content is that the WRITER's field list (write_info, one Go
+           function) and the READER's field list (read_info, another Go function) match.
+   Part 2  the stream reader (data.NewReader over a pipe) agrees with the flat reader on the
+           concatenation of EVERY split into non-empty short reads; with part 1 this gives the
+           stream round trips.
+   Part 3  MvTime: server setter -> client handler -> echo -> handleInfoResult. *)
 From XMT Require Import Base.Prelude Base.BitLemmas Model.Codec Proofs.Codec Model.DevInfo.
+From Coq Require Import ZifyBool.
+Ltac Zify.zify_post_hook ::= Z.div_mod_to_equations.
+
+(* ---- booleans to propositions ------------------------------------------------------------ *)
+Lemma is_u8_iff x : is_u8 x = true <-> 0 <= x < 256. Proof. unfold is_u8. lia. Qed.
+Lemma is_u32_iff x : is_u32 x = true <-> 0 <= x < 4294967296. Proof. unfold is_u32. lia. Qed.
+Lemma is_u64_iff x : is_u64 x = true <-> 0 <= x < 18446744073709551616. Proof. unfold is_u64. lia. Qed.
+Lemma is_i64_iff x : is_i64 x = true <-> -9223372036854775808 <= x < 9223372036854775808.
+Proof. unfold is_i64. lia. Qed.
+
+Ltac bools :=
+  repeat match goal with
+         | H : _ && _ = true |- _ => apply andb_true_iff in H; destruct H
+         | H : is_u8 _ = true |- _ => apply is_u8_iff in H
+         | H : is_u32 _ = true |- _ => apply is_u32_iff in H
+         | H : is_u64 _ = true |- _ => apply is_u64_iff in H
+         | H : is_i64 _ = true |- _ => apply is_i64_iff in H
+         end.
+
+Lemma i64_u64 v : -9223372036854775808 <= v < 9223372036854775808 -> i64 (u64 v) = v.
+Proof.
+  intros H. unfold i64, u64. change 18446744073709551616 with (2 ^ 64). apply sgn_wrap; [lia|].
+  change (2 ^ (64 - 1)) with 9223372036854775808. lia.
+Qed.
+Lemma u64_range v : 0 <= u64 v < 18446744073709551616.
+Proof. unfold u64. lia. Qed.
+
+(* ---- part 1: the flat reader ------------------------------------------------------------- *)
+(* rd reads the value a back from the bytes w, whatever follows, and leaves what follows *)
+Definition rt {A} (rd : rdr (list Z) A) (w : list Z) (a : A) : Prop :=
+  forall rest, rd (w ++ rest) = Ok (a, rest).
+
+Lemma rt_ret {A} (a : A) : rt (rret a) [] a.
+Proof. intros rest. reflexivity. Qed.
+Lemma rt_bind {A B} (m : rdr (list Z) A) (f : A -> rdr (list Z) B) w1 w2 a b :
+  rt m w1 a -> rt (f a) w2 b -> rt (rbind m f) (w1 ++ w2) b.
+Proof. intros H1 H2 rest. unfold rbind. rewrite <- app_assoc, H1. apply H2. Qed.
+Lemma rt_last {A B} (m : rdr (list Z) A) (f : A -> rdr (list Z) B) w a b :
+  rt m w a -> rt (f a) [] b -> rt (rbind m f) w b.
+Proof. intros H1 H2. rewrite <- (app_nil_r w). eapply rt_bind; eassumption. Qed.
+Lemma rt_eq {A} (rd : rdr (list Z) A) w w' a : w = w' -> rt rd w a -> rt rd w' a.
+Proof. intros <-. exact (fun H => H). Qed.
+
+Lemma rt_u8 v : 0 <= v < 256 -> rt (r_u8 flat_ops) (enc_u8 v) v.
+Proof. intros H rest. apply rd_u8_enc. exact H. Qed.
+Lemma rt_u32 v : 0 <= v < 4294967296 -> rt (r_uN flat_ops 4) (enc_u32 v) v.
+Proof. intros H rest. apply rd_u32_enc. exact H. Qed.
+Lemma rt_u64 v : 0 <= v < 18446744073709551616 -> rt (r_uN flat_ops 8) (enc_u64 v) v.
+Proof. intros H rest. apply rd_u64_enc. exact H. Qed.
+Lemma rt_bytes b : wf_bytes b = true -> rt (r_bytes flat_ops) (enc_bytes b) b.
+Proof. intros H rest. apply rd_bytes_enc. apply wf_bytes_len. exact H. Qed.
+Lemma rt_raw n b : len b = n -> rt (r_raw flat_ops n) b b.
+Proof. intros H rest. apply rd_fixed_app. exact H. Qed.
+
+(* n elements, each written by wr and read by rd *)
+Lemma rt_read_n {A} (rd : rdr (list Z) A) (wr : A -> list Z) (l : list A) :
+  Forall (fun x => rt rd (wr x) x) l -> rt (read_n rd (length l)) (concat (map wr l)) l.
+Proof.
+  induction 1 as [|x l Hx _ IH]; [apply rt_ret|].
+  cbn [length read_n map concat]. eapply rt_bind; [exact Hx|]. eapply rt_last; [exact IH | apply rt_ret].
+Qed.
+
+Lemma take_all {A} (l : list A) : take (len l) l = l.
+Proof. unfold take, len. rewrite Nat2Z.id. apply firstn_all. Qed.
+
+(* count byte + elements; the count is ONE byte: at most 255 elements *)
+Lemma rt_counted {A} (rd : rdr (list Z) A) (wr : A -> list Z) (l : list A) :
+  len l <= 255 -> Forall (fun x => rt rd (wr x) x) l ->
+  rt (read_counted flat_ops rd) (write_counted wr l) l.
+Proof.
+  intros Hl H. unfold read_counted, write_counted. pose proof (len_nonneg l).
+  rewrite u8_small by lia. rewrite take_all.
+  eapply rt_bind; [apply rt_u8; lia|]. unfold len. rewrite Nat2Z.id. apply rt_read_n. exact H.
+Qed.
+
+Lemma forallb_Forall {A} (p : A -> bool) (P : A -> Prop) l :
+  (forall x, p x = true -> P x) -> forallb p l = true -> Forall P l.
+Proof.
+  intros Hp. induction l as [|x l IH]; cbn [forallb]; intros H; [constructor|].
+  apply andb_true_iff in H. destruct H. constructor; auto.
+Qed.
+
+(* Address: two uint64 *)
+Lemma rt_addr a : wf_addr a = true -> rt (read_addr flat_ops) (write_addr a) a.
+Proof.
+  unfold wf_addr. intros H. bools. destruct a as [hi lo]. cbn [a_hi a_lo] in *.
+  unfold read_addr, write_addr. cbn [a_hi a_lo].
+  eapply rt_bind; [apply rt_u64; lia|]. eapply rt_last; [apply rt_u64; lia | apply rt_ret].
+Qed.
+
+(* network interface: name, hardware address, counted addresses *)
+Lemma rt_dev d : wf_dev d = true -> rt (read_dev flat_ops) (write_dev d) d.
+Proof.
+  unfold wf_dev. intros H. bools. destruct d as [nm mac ad]. cbn [d_name d_mac d_addrs] in *.
+  unfold read_dev, write_dev. cbn [d_name d_mac d_addrs].
+  eapply rt_bind; [apply rt_bytes; assumption|]. eapply rt_bind; [apply rt_u64; lia|].
+  eapply rt_last; [|apply rt_ret].
+  apply rt_counted; [lia|]. eapply forallb_Forall; [|eassumption]. apply rt_addr.
+Qed.
+
+(* Network: counted interfaces *)
+Lemma rt_net n : len n <= 255 -> forallb wf_dev n = true -> rt (read_counted flat_ops (read_dev flat_ops)) (write_net n) n.
+Proof.
+  intros Hl H. unfold write_net. apply rt_counted; [exact Hl|]. eapply forallb_Forall; [|exact H]. apply rt_dev.
+Qed.
+
+(* device ID: 32 raw bytes, the first one not zero *)
+Lemma rt_id b : wf_id b = true -> rt (read_id flat_ops) b b.
+Proof.
+  unfold wf_id, wf_raw. intros H. bools. unfold read_id.
+  eapply rt_last; [apply rt_raw; lia|].
+  destruct b as [|x b']; [discriminate|]. cbn [hd] in *.
+  destruct (x =? 0); [discriminate | apply rt_ret].
+Qed.
+
+(* Machine *)
+Lemma rt_machine m : wf_machine m = true -> rt (read_machine flat_ops) (write_machine m) m.
+Proof.
+  unfold wf_machine. intros H. bools.
+  destruct m as [id sys pid ppid u v h e c n].
+  cbn [m_id m_system m_pid m_ppid m_user m_version m_host m_elev m_caps m_net] in *.
+  unfold read_machine, write_machine. cbn [m_id m_system m_pid m_ppid m_user m_version m_host m_elev m_caps m_net].
+  eapply rt_bind; [apply rt_id; assumption|].
+  eapply rt_bind; [apply rt_u8; lia|].
+  eapply rt_bind; [apply rt_u32; lia|].
+  eapply rt_bind; [apply rt_u32; lia|].
+  eapply rt_bind; [apply rt_bytes; assumption|].
+  eapply rt_bind; [apply rt_bytes; assumption|].
+  eapply rt_bind; [apply rt_bytes; assumption|].
+  eapply rt_bind; [apply rt_u8; lia|].
+  eapply rt_bind; [apply rt_u32; lia|].
+  eapply rt_last; [apply rt_net; [lia | assumption] | apply rt_ret].
+Qed.
+
+(* WorkHours: five bytes *)
+Lemma rt_workhours w : wf_workhours w = true -> rt (read_workhours flat_ops) (write_workhours w) w.
+Proof.
+  unfold wf_workhours. intros H. bools. destruct w as [d sh sm eh em].
+  cbn [w_days w_sh w_sm w_eh w_em] in *. unfold read_workhours, write_workhours. cbn [w_days w_sh w_sm w_eh w_em].
+  do 4 (eapply rt_bind; [apply rt_u8; lia|]). eapply rt_last; [apply rt_u8; lia | apply rt_ret].
+Qed.
+(* a session without work hours writes uint32 0, uint8 0: the reader sees the all-zero value *)
+Lemma rt_work_none : rt (read_workhours flat_ops) (write_work None) (mkWork 0 0 0 0 0).
+Proof. intros rest. reflexivity. Qed.
+
+(* KeyPair: public, private, shared secret *)
+Lemma rt_keys k : wf_keys k = true -> rt (read_keys flat_ops) (write_keys k) k.
+Proof.
+  unfold wf_keys, wf_raw. intros H. bools. destruct k as [a b c]. cbn [k_pub k_priv k_share] in *.
+  unfold read_keys, write_keys. cbn [k_pub k_priv k_share].
+  eapply rt_bind; [apply rt_raw; lia|]. eapply rt_bind; [apply rt_raw; lia|].
+  eapply rt_last; [apply rt_raw; lia | apply rt_ret].
+Qed.
+
+(* jitter, sleep, kill date, work hours *)
+Lemma norm_work_none : norm_work (mkWork 0 0 0 0 0) = None.
+Proof. reflexivity. Qed.
+
+Lemma rt_settings s r : wf_settings s = true ->
+  rt (read_settings flat_ops r) (write_settings s) (absorb_settings s r).
+Proof.
+  unfold wf_settings, wf_time. intros H. bools.
+  unfold read_settings, write_settings, write_kill.
+  eapply rt_bind; [apply rt_u8; lia|].
+  eapply rt_bind; [apply rt_u64; apply u64_range|].
+  eapply rt_bind; [apply rt_u64; unfold kill_wire; destruct (is_zero_time (s_kill s)); [lia | apply u64_range]|].
+  rewrite i64_u64 by lia. unfold absorb_settings, norm_kill.
+  destruct (s_work s) as [w|]; cbn [wf_work] in *.
+  - eapply rt_last; [apply rt_workhours; assumption | apply rt_ret].
+  - eapply rt_last; [apply rt_work_none | apply rt_ret].
+Qed.
+
+(* the proxy list of an active client session *)
+Lemma rt_proxy f s : s_client s = true -> wf_proxy_opt (s_proxy s) = true ->
+  rt (read_proxies flat_ops f) (write_proxy f s) (proxies_of f s).
+Proof.
+  intros Hc H. unfold write_proxy, proxies_of, read_proxies, read_counted. rewrite Hc. cbn [negb].
+  destruct (s_proxy s) as [p|]; [|intros rest; reflexivity].
+  destruct (p_active p); cbn [negb]; [|intros rest; reflexivity].
+  cbn [wf_proxy_opt] in H. unfold wf_proxy in H. bools.
+  eapply rt_bind; [apply rt_u8; lia|]. change (Z.to_nat 1) with 1%nat. cbn [read_n].
+  eapply rt_last; [|apply rt_ret]. unfold read_pdata.
+  eapply rt_bind; [apply rt_bytes; assumption|].
+  destruct f.
+  - eapply rt_bind; [apply rt_bytes; assumption|]. eapply rt_last; [apply rt_bytes; assumption | apply rt_ret].
+  - eapply rt_bind; [apply rt_bytes; assumption | apply rt_ret].
+Qed.
+
+(* ---- the six message kinds, flat reader ---- *)
+Theorem devinfo_roundtrip_flat k s r :
+  wf k s = true -> rt (read_info flat_ops k r) (write_info k s) (absorb k s r, carried_proxies k s).
+Proof.
+  unfold wf, is_kind. intros H. apply andb_true_iff in H. destruct H as [Hk H].
+  unfold read_info, write_info, absorb, carried_proxies.
+  destruct (k =? infoProxy) eqn:Ep.
+  { apply andb_true_iff in H. destruct H as [Hc Hp].
+    eapply rt_last; [apply rt_proxy; assumption | apply rt_ret]. }
+  apply andb_true_iff in H. destruct H as [H Hkeys].
+  apply andb_true_iff in H. destruct H as [H Hprox].
+  apply andb_true_iff in H. destruct H as [Hhead Hset].
+  eapply rt_bind.
+  { instantiate (1 := if has_device k then set_dev r (s_dev s) else if k =? infoMigrate then set_id r (s_id s) else r).
+    destruct (has_device k).
+    - eapply rt_last; [apply rt_machine; exact Hhead | apply rt_ret].
+    - destruct (k =? infoMigrate).
+      + eapply rt_last; [apply rt_id; exact Hhead | apply rt_ret].
+      + apply rt_ret. }
+  unfold carries_proxy in Hprox.
+  destruct (infoRefresh <? k) eqn:Er.
+  { replace (k =? infoMigrate) with false by (unfold infoMigrate, infoRefresh in *; lia).
+    rewrite <- (app_nil_r (write_settings s)). rewrite app_nil_r.
+    eapply rt_last; [apply rt_settings; exact Hset | apply rt_ret]. }
+  replace (k <=? infoRefresh) with true in Hprox by lia.
+  apply andb_true_iff in Hprox. destruct Hprox as [Hc Hp].
+  eapply rt_bind; [apply rt_settings; exact Hset|].
+  destruct (k =? infoMigrate).
+  - eapply rt_bind; [apply rt_proxy; assumption|].
+    eapply rt_last; [apply rt_keys; exact Hkeys | apply rt_ret].
+  - eapply rt_last; [apply rt_proxy; assumption | apply rt_ret].
+Qed.
+
+(* ---- part 2: the stream reader agrees with the flat reader ------------------------------- *)
+Lemma agree_rbind {A B} (f : rdr (list Z) A) (g : rdr src A) (f' : A -> rdr (list Z) B) (g' : A -> rdr src B) :
+  agree f g -> (forall a, agree (f' a) (g' a)) -> agree (rbind f f') (rbind g g').
+Proof.
+  intros H H' s Hs. specialize (H s Hs). unfold rbind.
+  destruct (f (concat s)) as [[a r]| |], (g s) as [[a' s']| |]; try contradiction; try exact I.
+  destruct H as (<- & <- & Hn). apply H'. exact Hn.
+Qed.
+Lemma agree_rret {A} (a : A) : agree (rret a) (rret a).
+Proof. apply agree_ret. Qed.
+Lemma agree_rfail {A} e : agree (@rfail (list Z) A e) (@rfail src A e).
+Proof. apply agree_err. Qed.
+
+(* io.ReadFull of n raw bytes through the stream reader's Read *)
+Lemma agree_raw n : 0 <= n -> agree (rd_fixed n) (srd_raw n).
+Proof.
+  intros Hn s Hs. unfold rd_fixed, srd_raw.
+  destruct (Z.ltb_spec (len (concat s)) n) as [Hlt|Hge].
+  - destruct (read_full_short s (src_fuel s n) n [] Hs) as (e & ->); [unfold src_fuel; lia | exact Hlt | exact I].
+  - destruct (read_full_ok s (src_fuel s n) n [] Hs) as (s' & -> & Hc & Hn'); [unfold src_fuel; lia | lia |].
+    cbn [app]. repeat split; assumption.
+Qed.
+
+Lemma agree_read_n {A} (f : rdr (list Z) A) (g : rdr src A) n : agree f g -> agree (read_n f n) (read_n g n).
+Proof.
+  intros H. induction n as [|n IH]; cbn [read_n]; [apply agree_rret|].
+  apply agree_rbind; [exact H|]. intros x. apply agree_rbind; [exact IH|]. intros l. apply agree_rret.
+Qed.
+Lemma agree_counted {A} (f : rdr (list Z) A) (g : rdr src A) :
+  agree f g -> agree (read_counted flat_ops f) (read_counted stream_ops g).
+Proof.
+  intros H. unfold read_counted. apply agree_rbind; [apply agree_u8|]. intros n. apply agree_read_n. exact H.
+Qed.
+
+Ltac agr :=
+  repeat first
+    [ apply agree_rret | apply agree_rfail
+    | apply agree_u8 | apply agree_bytes
+    | apply agree_uN; lia | apply agree_raw; unfold IDSize, publicKeySize, privateKeySize, sharedKeySize; lia
+    | apply agree_rbind; [|intros ?] ].
+
+Lemma agree_addr : agree (read_addr flat_ops) (read_addr stream_ops).
+Proof. unfold read_addr. cbn [r_uN flat_ops stream_ops]. agr. Qed.
+Lemma agree_dev : agree (read_dev flat_ops) (read_dev stream_ops).
+Proof.
+  unfold read_dev. cbn [r_uN r_bytes flat_ops stream_ops].
+  apply agree_rbind; [apply agree_bytes|]. intros nm. apply agree_rbind; [apply agree_uN; lia|]. intros mac.
+  apply agree_rbind; [apply agree_counted; apply agree_addr|]. intros a. apply agree_rret.
+Qed.
+Lemma agree_id : agree (read_id flat_ops) (read_id stream_ops).
+Proof.
+  unfold read_id. cbn [r_raw flat_ops stream_ops]. apply agree_rbind; [apply agree_raw; unfold IDSize; lia|].
+  intros [|x b]; [apply agree_rfail|]. destruct (x =? 0); [apply agree_rfail | apply agree_rret].
+Qed.
+Lemma agree_machine : agree (read_machine flat_ops) (read_machine stream_ops).
+Proof.
+  unfold read_machine. apply agree_rbind; [apply agree_id|]. intros id.
+  cbn [r_u8 r_uN r_bytes flat_ops stream_ops].
+  apply agree_rbind; [apply agree_u8|]. intros sys.
+  apply agree_rbind; [apply agree_uN; lia|]. intros pid.
+  apply agree_rbind; [apply agree_uN; lia|]. intros ppid.
+  apply agree_rbind; [apply agree_bytes|]. intros u.
+  apply agree_rbind; [apply agree_bytes|]. intros v.
+  apply agree_rbind; [apply agree_bytes|]. intros h.
+  apply agree_rbind; [apply agree_u8|]. intros e.
+  apply agree_rbind; [apply agree_uN; lia|]. intros c.
+  apply agree_rbind; [apply agree_counted; apply agree_dev|]. intros n. apply agree_rret.
+Qed.
+Lemma agree_workhours : agree (read_workhours flat_ops) (read_workhours stream_ops).
+Proof. unfold read_workhours. cbn [r_u8 flat_ops stream_ops]. agr. Qed.
+Lemma agree_keys : agree (read_keys flat_ops) (read_keys stream_ops).
+Proof. unfold read_keys. cbn [r_raw flat_ops stream_ops]. agr. Qed.
+Lemma agree_settings r : agree (read_settings flat_ops r) (read_settings stream_ops r).
+Proof.
+  unfold read_settings. cbn [r_u8 r_uN flat_ops stream_ops].
+  apply agree_rbind; [apply agree_u8|]. intros j.
+  apply agree_rbind; [apply agree_uN; lia|]. intros sl.
+  apply agree_rbind; [apply agree_uN; lia|]. intros kv.
+  apply agree_rbind; [apply agree_workhours|]. intros w. apply agree_rret.
+Qed.
+Lemma agree_pdata f : agree (read_pdata flat_ops f) (read_pdata stream_ops f).
+Proof. unfold read_pdata. cbn [r_bytes flat_ops stream_ops]. destruct f; agr. Qed.
+Lemma agree_proxies f : agree (read_proxies flat_ops f) (read_proxies stream_ops f).
+Proof. unfold read_proxies. apply agree_counted. apply agree_pdata. Qed.
+
+(* readDeviceInfo over a stream = readDeviceInfo over the concatenated bytes, for every kind
+   and every input (valid or not), whatever the split into non-empty short reads *)
+Theorem read_info_agree k r : agree (read_info flat_ops k r) (read_info stream_ops k r).
+Proof.
+  unfold read_info. destruct (k =? infoProxy).
+  { apply agree_rbind; [apply agree_proxies|]. intros p. apply agree_rret. }
+  apply agree_rbind.
+  { destruct (has_device k).
+    - apply agree_rbind; [apply agree_machine|]. intros m. apply agree_rret.
+    - destruct (k =? infoMigrate); [|apply agree_rret].
+      apply agree_rbind; [apply agree_id|]. intros i. apply agree_rret. }
+  intros r1. apply agree_rbind; [apply agree_settings|]. intros r2.
+  destruct (infoRefresh <? k); [apply agree_rret|].
+  apply agree_rbind; [apply agree_proxies|]. intros p.
+  destruct (k =? infoMigrate); [|apply agree_rret].
+  apply agree_rbind; [apply agree_keys|]. intros ks. apply agree_rret.
+Qed.
+
+(* a flat round trip is a stream round trip for every split *)
+Lemma rt_stream {A} (f : rdr (list Z) A) (g : rdr src A) w a :
+  agree f g -> rt f w a ->
+  forall s rest, no_empty s -> concat s = w ++ rest ->
+  exists s', g s = Ok (a, s') /\ concat s' = rest /\ no_empty s'.
+Proof.
+  intros Hag Hrt s rest Hs Hc. specialize (Hag s Hs). rewrite Hc, Hrt in Hag.
+  destruct (g s) as [[a' s']| |]; try contradiction.
+  destruct Hag as (<- & E & Hn). exists s'. repeat split; assumption.
+Qed.
+
+Theorem devinfo_roundtrip_stream k s r :
+  wf k s = true ->
+  forall sr rest, no_empty sr -> concat sr = write_info k s ++ rest ->
+  exists sr', read_info stream_ops k r sr = Ok ((absorb k s r, carried_proxies k s), sr') /\
+              concat sr' = rest /\ no_empty sr'.
+Proof.
+  intros H. apply rt_stream with (f := read_info flat_ops k r); [apply read_info_agree | apply devinfo_roundtrip_flat; exact H].
+Qed.
+
+(* component round trips through the stream reader *)
+Theorem machine_roundtrip_stream m : wf_machine m = true ->
+  forall sr rest, no_empty sr -> concat sr = write_machine m ++ rest ->
+  exists sr', read_machine stream_ops sr = Ok (m, sr') /\ concat sr' = rest /\ no_empty sr'.
+Proof. intros H. apply rt_stream with (f := read_machine flat_ops); [apply agree_machine | apply rt_machine; exact H]. Qed.
+Theorem keys_roundtrip_stream k : wf_keys k = true ->
+  forall sr rest, no_empty sr -> concat sr = write_keys k ++ rest ->
+  exists sr', read_keys stream_ops sr = Ok (k, sr') /\ concat sr' = rest /\ no_empty sr'.
+Proof. intros H. apply rt_stream with (f := read_keys flat_ops); [apply agree_keys | apply rt_keys; exact H]. Qed.
+Theorem workhours_roundtrip_stream w : wf_workhours w = true ->
+  forall sr rest, no_empty sr -> concat sr = write_workhours w ++ rest ->
+  exists sr', read_workhours stream_ops sr = Ok (w, sr') /\ concat sr' = rest /\ no_empty sr'.
+Proof. intros H. apply rt_stream with (f := read_workhours flat_ops); [apply agree_workhours | apply rt_workhours; exact H]. Qed.
